@@ -12,6 +12,7 @@ import (
 	"verif/harness"
 	"verif/peer"
 	"verif/ref"
+	"verif/vsched"
 )
 
 // Functional oracles on explored schedules: the ELX checks run the internal
@@ -22,6 +23,7 @@ import (
 
 func init() {
 	fw.ReplayHook = replaySpxFunc
+	fw.SetPolicy = func(p int) { vsched.DefaultPolicy = p }
 }
 
 // DescribeSpxFamilies appends the SPX family to the rule text of every check
@@ -58,6 +60,9 @@ func spxScenarioFor(name string) *spxScenario {
 
 // runSpxFamily explores the harnesses of prop and reports its rules.
 func runSpxFamily(c *fw.Ctx, prop string) {
+	if vsched.DefaultPolicy != 0 {
+		return // schedule exploration does not depend on the canonical policy: once is enough
+	}
 	completed := map[string]int{}
 	capped := map[string]bool{}
 	for b := 1; b <= 3; b++ {
